@@ -68,6 +68,9 @@ type Exec struct {
 	symSeq    int
 	mapSeq    int
 	syncMaps  map[*Cell]*MapObj
+	locks       map[*Cell]*lockHold
+	guards      map[*Cell]*guardRec
+	guardedMaps map[*MapObj]*guardRec
 	globals   map[*ssa.Global]*Cell
 	ginit     map[*ssa.Global]bool
 	nondets   []nondetRec
@@ -1243,6 +1246,9 @@ func (ex *Exec) mapFind(m *MapObj, key Value) int {
 }
 
 func (ex *Exec) mapUpdate(m *MapObj, key, val Value) {
+	if ex.guardedMaps != nil {
+		ex.guardMapAccess(m, true, key, val)
+	}
 	i := ex.mapFind(m, key)
 	if i >= 0 {
 		m.vals[i] = val
@@ -1253,6 +1259,9 @@ func (ex *Exec) mapUpdate(m *MapObj, key, val Value) {
 }
 
 func (ex *Exec) mapDelete(m *MapObj, key Value) {
+	if ex.guardedMaps != nil {
+		ex.guardMapAccess(m, true)
+	}
 	i := ex.mapFind(m, key)
 	if i >= 0 {
 		m.keys = append(m.keys[:i:i], m.keys[i+1:]...)
@@ -1276,6 +1285,9 @@ func (ex *Exec) lookup(fr *frame, x *ssa.Lookup) Value {
 	mt := x.X.Type().Underlying().(*types.Map)
 	var res Value
 	found := false
+	if m.m != nil && ex.guardedMaps != nil {
+		ex.guardMapAccess(m.m, false)
+	}
 	if m.m != nil {
 		// scalar-valued maps with symbolic keys: build an ite chain instead of forking
 		if kt, ok := key.(*Term); ok && !allConstKeys(m.m, kt) && scalarVals(m.m) && len(m.m.keys) > 0 && !ex.anyToken(m.m.vals) {
@@ -1346,6 +1358,9 @@ func (ex *Exec) rangeStart(fr *frame, x *ssa.Range) Value {
 	m := v.(MapV)
 	it := &rangeIter{}
 	if m.m != nil {
+		if ex.guardedMaps != nil {
+			ex.guardMapAccess(m.m, false)
+		}
 		it.m = m.m
 		it.keys = append([]Value(nil), m.m.keys...)
 		it.vals = append([]Value(nil), m.m.vals...)
@@ -1537,6 +1552,9 @@ func (ex *Exec) callBuiltin(fr *frame, f FuncV, args []Value, pos token.Pos) Val
 		case MapV:
 			if x.m == nil {
 				return mkInt(0)
+			}
+			if ex.guardedMaps != nil {
+				ex.guardMapAccess(x.m, false)
 			}
 			// keys may alias symbolically; count distinct entries (entries are kept distinct by construction)
 			return mkInt(int64(len(x.m.keys)))
